@@ -8,9 +8,9 @@ INFO = dict(
             'mpmc_stack_init', 'mpmc_stack_push', 'mpmc_stack_lifo_flush', 'mpmc_stack_fifo_flush', 'mpmc_stack_reverse',
             'compare_and_swap2 (inline asm lock cmpxchg16b interpreted from the IR: operand registers taken from the constraint string)',
             'fiber_multi_signal_wait', 'fiber_multi_signal_raise'],
- stubs=['lock cmpxchg16b; setz: atomic 2-cell compare-and-swap, operands bound through the asm constraint letters'],
+ stubs=['E1 multi-signal step (e1/C20/msig_e1.c): every atomic access of fiber_signal.h to the (counter, head) pair and compare_and_swap2 (performed as the specified 16-byte compare-exchange) is preceded by arbitrary environment transitions (counter += d >= 1, head = NULL / RAISED / any waiter list of other fibers); fiber_manager_yield / fiber_scheduler_schedule record', 'lock cmpxchg16b; setz: atomic 2-cell compare-and-swap, operands bound through the asm constraint letters'],
  assumptions=['x86-TSO mapping of atomics; -O1 IR of clang-14'],
- bounds='lifo: 2 nodes A->B, thread 1 pop,pop,push(A) (node reuse), thread 2 pop (+ thread 3 pop,push); dist_fifo: pusher x 2 (optionally '
+ bounds='multi-signal E1 step: one wait/raise from an arbitrary pair, <= 2 (thorough 4) environment transitions at any atomic access; lifo: 2 nodes A->B, thread 1 pop,pop,push(A) (node reuse), thread 2 pop (+ thread 3 pop,push); dist_fifo: pusher x 2 (optionally '
         're-using a node a popper just returned), 2 poppers x 2; mpmc_stack: 2 pushers x {1,2}, flusher lifo_flush + fifo_flush; all interleavings',
  outside='more nodes/threads; raise_strict')
 
